@@ -5,6 +5,7 @@
 # (SHROUD_REPO=<worktree>), and removes the worktree.  Exit status: 0 if every listed check
 # reported a VIOLATION (the change is caught), 1 otherwise.
 set -u
+here="$(cd "$(dirname "$0")/.." && pwd)"   # the /verif tree this script belongs to (may be a snapshot)
 patch="$(readlink -f "$1")"; shift
 wt="$(mktemp -d /tmp/vm-XXXXXX)"; rmdir "$wt"
 git -C /repo worktree add -q --detach "$wt" HEAD || exit 3
@@ -20,7 +21,7 @@ if [ -n "${MUT_DEMO:-}" ]; then
 fi
 rc=0
 for p in "$@"; do
-  out="$(cd /verif && SHROUD_REPO="$wt" timeout 3000 ./vcheck "$p" --tier "${MUT_TIER:-quick}" --no-evidence ${MUT_ARGS:-} 2>&1)"
+  out="$(cd "$here" && SHROUD_REPO="$wt" timeout 3000 ./vcheck "$p" --tier "${MUT_TIER:-quick}" --no-evidence ${MUT_ARGS:-} 2>&1)"
   code=$?
   echo "== $p exit=$code"
   echo "$out" | grep -E "^VIOLATION|^  sig=|HARNESS|^C[0-9]+ (quick|thorough):" | cut -c1-330 | head -12
